@@ -20,7 +20,8 @@ RULE = ("DIP texts with 4 context nodes and 1-2 constrained nodes (float with un
         "formats that accept / reject the empty text; options and bounds in other units of the same dimension (custom "
         "$units included); array values of lower, equal and higher rank than declared, given in the definition, a modification or a sliced "
         "reference; the constrained node is defined in place, or in a group and imported from a local path ({?defs.*}, {?defs.q}) or from a remote "
-        "$source file ({src?defs.*}), and then modified 0-3 times (also in other units); a group of bare declarations imported and assigned afterwards - or never (original and copy); property lines interleaved with a @case "
+        "$source file ({src?defs.*}), and then modified 0-3 times (also in other units; array nodes also by modifications that repeat the datatype with a dimension text of "
+        "their own - none, wider, narrower - that the value fits: the bounds of the definition decide); a group of bare declarations imported and assigned afterwards - or never (original and copy); property lines interleaved with a @case "
         "clause nested under the node at their indent (selected or not, closed by indentation, further property lines after it); conditions "
         "joining 2-4 sub-conditions with || and && in every tree shape and truth pattern (also on bool and str nodes); a fifth of the cases are STAGED parses (DIP(env) continues on the returned environment, 2-3 "
         "stages) whose later stages modify the node, the node its !condition refers to ({?} < {?k}) or an unrelated node, judged after every stage; "
@@ -83,6 +84,14 @@ def conv_real(v, src, dst):
         r = float(Quantity(float(v), src).value(dst))
     assert abs(r - v * KMAP[src] / KMAP[dst]) <= 1e-9 * abs(r) + 1e-300
     return r
+
+
+def mod_line(fullname, m):
+    """a modification line: untyped `name = value`, or repeating the datatype `name type[dims] = value`"""
+    if m.startswith("@T:"):
+        typ, rhs = m[3:].split("|", 1)
+        return "%s %s = %s" % (fullname, typ, rhs)
+    return "%s = %s" % (fullname, m)
 
 
 def fnum(x):
@@ -213,7 +222,10 @@ def gen_target(rng, name, custom, imported):
             t.final = conv_real(mv, u2, t.unit)
             t.mod_vals.append(t.final)
         ref = t.initial if imported else (t.final if t.final is not None else 1.0)
-        if rng.random() < 0.55:
+        # a class of its own: the only constraint is an == / != whose operand equals the value within the tolerance
+        # but not exactly (another unit, or 4e-7 beside it)
+        tol_case = (not imported) and t.final is not None and rng.random() < 0.2
+        if rng.random() < 0.55 and not tol_case:
             n = rng.randint(1, 3)
             hit = rng.random() < (0.9 if imported else 0.7)
             vals = []
@@ -231,20 +243,26 @@ def gen_target(rng, name, custom, imported):
                 vs = [ov * KMAP[u] / KMAP[u2] for ov, u in vals]
                 t.lines.append("  !options [%s] %s" % (",".join(fnum(x) for x in vs), u2))
                 t.options += [["num", x, u2] for x in vs]
-        if rng.random() < 0.55:
+        if rng.random() < 0.55 or tol_case:
             u2 = rng.choice(units + [None])
             d = delta()
+            if tol_case:
+                u2 = rng.choice(units)
+                d = rng.choice([4e-7, -4e-7, 4e-7, 0])
             bound = ref * (KMAP[t.unit] / KMAP[u2] if u2 else 1.0) * (1 + d)
             if imported:     # satisfied by the initial value, decided by the modifications
                 op = rng.choice(["le", "ge", "eq"]) if abs(d) < 1e-6 else ("lt" if d > 0 else "gt")
             else:
-                op = rng.choice(["eq", "ne", "le", "ge", "lt", "gt"])
+                # == and != are decided by the tolerance: more of them when the bound is (nearly) the value
+                op = rng.choice(["eq", "ne", "ne", "le", "ge", "lt", "gt"] + (["ne", "ne", "eq"] if abs(d) < 1e-6 else []))
+                if tol_case:
+                    op = rng.choice(["ne", "ne", "eq"])
             a, b = ["lit", "{?}"], ["lit", fnum(bound) + (" " + u2 if u2 else "")]
             if rng.random() < 0.35:
                 a, b = b, a
                 op = {"lt": "gt", "gt": "lt", "le": "ge", "ge": "le"}.get(op, op)
-            t.cond_ast = c18.wf_fix(cond_wrap(rng, ["bin", op, a, b]) if not imported else ["bin", op, a, b], c18.LOG_LVL)
-            if not imported and rng.random() < 0.5:
+            t.cond_ast = c18.wf_fix(cond_wrap(rng, ["bin", op, a, b]) if not (imported or tol_case) else ["bin", op, a, b], c18.LOG_LVL)
+            if not imported and not tol_case and rng.random() < 0.5:
                 t.cond_ast = multi_cond(rng, ref, t.unit, units, "k")
     elif t.kind == "int":
         t.unit = rng.choice([None, None, "m", "cm", "km"] + (["[x]"] if custom else []))
@@ -480,7 +498,16 @@ def gen_target(rng, name, custom, imported):
         if declared_only or (within(shape) and rng.random() < 0.5):   # bounds are enforced on every assignment (see ASSUMPTIONS)
             shape2 = value_shape()
             val2 = nested(rng, shape2, et)
-            t.mods.append("%s%s" % (lit_value(val2), us))
+            rhs = "%s%s" % (lit_value(val2), us)
+            if rng.random() < 0.45:
+                # a modification that repeats the datatype, with a dimension text of its own (none, wider, narrower than the
+                # definition's) that the value fits: the bounds of the DEFINITION decide
+                def own(n):
+                    return rng.choice([":", "%d" % n, "%d:" % max(n - rng.randint(0, 1), 0), ":%d" % (n + rng.randint(0, 2)),
+                                       "%d:%d" % (max(n - 1, 0), n + 1)])
+                typ = et + ("[%s]" % ",".join(own(n) for n in shape2) if shape2 else "")
+                rhs = "@T:%s|%s" % (typ, rhs)
+            t.mods.append(rhs)
             t.shape = list(shape2)
             t.final = val2
             t.mod_vals.append(val2)
@@ -604,7 +631,7 @@ def staged_stream(ctx, rng, tabs, drv18, count, DIP, unit_rows):
             lines = []
             for w, x in st:
                 if w == "q":
-                    lines.append("q = %s" % t.mods[x])
+                    lines.append(mod_line("q", t.mods[x]))
                     qv = t.mod_vals[x]
                     if t.mod_shapes:
                         qs = t.mod_shapes[x]
@@ -780,10 +807,10 @@ def _run(ctx, rng, tabs, drv18, count, tmpdir, DIP, Format):
                 body.append("  !condition (\"%s\")" % t.cond_text)
         extra = [ln for t in targets for ln in t.extra_ctx]
         if mode == "plain":
-            lines = ctxt + extra + body + ["%s = %s" % (t.name, m) for t in targets for m in t.mods]
+            lines = ctxt + extra + body + [mod_line(t.name, m) for t in targets for m in t.mods]
         else:
             group = ["defs"] + ["  " + ln for ln in body]
-            mods = ["run.%s = %s" % (t.name, m) for t in targets for m in t.mods]
+            mods = [mod_line("run." + t.name, m) for t in targets for m in t.mods]
             if mode == "remote":
                 path = os.path.join(tmpdir, "defs_%d.dip" % ci)
                 with open(path, "w") as f:
